@@ -482,10 +482,19 @@ func (c *OpContext) makeAltPath() (a []string) {
 // only happens when the error is actually rendered (the minority case).
 func (e *ValueError) Msg() (format string, args []interface{}) {
 	format, args = e.Message.Msg()
+	// The args belong to the error, which is part of an evaluated value and
+	// may be rendered by several goroutines at once: box into a copy.
+	var boxed []interface{}
 	for i, a := range args {
 		if x, ok := a.(Node); ok {
-			args[i] = Formatter{X: x, F: e.format, R: e.r}
+			if boxed == nil {
+				boxed = slices.Clone(args)
+			}
+			boxed[i] = Formatter{X: x, F: e.format, R: e.r}
 		}
+	}
+	if boxed != nil {
+		args = boxed
 	}
 	return format, args
 }
